@@ -18,6 +18,7 @@ EXPLANATION = (
     "and all inputs are re-armed; when the row is incomplete the scan continues; (END) on any input's Ready(None) edge every path "
     "sets `done` and returns Ready(None) in the same call without polling anything or taking the row (buffered items are left "
     "to the destructor: C02.ZIP); every Ready(None) return sits on such an edge; (EXT) StreamExt::zip builds (self, other).")
+EXPLANATION += (' (CTOR) the entry point stores operand K, converted by into_stream only, as the input of position K.')
 ASSUMPTIONS = [
     "Iterator::all over the state slice visits every slot (library model)",
     "C02.ZIP: buffered items of an incomplete row are dropped by the destructor, never yielded",
